@@ -162,6 +162,14 @@ Definition witness_valid (bits T : nat) (ofN : N -> K) (g : gens) (commitments :
                         negb (Nat.eqb (length r) 0) && Nat.leb (length r) T && veqb M (commit g (ofN v) r) c)
              (combine (combine values blindings) commitments)
   && forallb (fun vp => match snd vp with Some mv => (mv <=? fst vp)%N | None => true end) (combine values promises).
+
+(** ** prove_with_rng as a whole: the guard in front of the proof computation (the nonces and challenges are
+    the oracles' answers; an error is [None]) *)
+Definition prove_top (bits cap T : nat) (g : gens) (commitments : list M) (promises : list (option N))
+           (values : list N) (blindings : list (list K)) (wT : nat) (nn : nonces) (ch : pchals) : option pproof :=
+  if witness_valid bits T (fofN K) g commitments promises values blindings wT
+  then Some (prove_core bits cap g values promises blindings nn ch)
+  else None.
 End ProverModel.
 
 Arguments g_H {K M}. Arguments g_Gb {K M}. Arguments g_G {K M}. Arguments g_Hv {K M}.
